@@ -100,7 +100,7 @@ PROPS = {
     "C02": {
         "property_module": "AutosarVerif.Properties.C02",
         "modules": ["AutosarVerif.Properties.C02"],
-        "closure": ["AutosarVerif.Properties.C02", "AutosarVerif.Lemmas.Lexer"],
+        "closure": ["AutosarVerif.Properties.C02", "AutosarVerif.Lemmas.Lexer", 'AutosarVerif.Lemmas.ParserTotal'],
         "scenario": "c02",
         "rule": "inputs: every string up to length 5 (thorough: 6) over the 16-symbol XML token alphabet `<>/?!-=\"'&;#x space newline A`; "
                 "token strings after a valid xml header, inside a valid AUTOSAR root element and inside `<?xml … ?>`; a valid document, "
@@ -191,7 +191,7 @@ PROPS = {
     "C11": {
         "property_module": "AutosarVerif.Properties.C11",
         "modules": ["AutosarVerif.Properties.C11"],
-        "closure": ['AutosarVerif.Properties.C11', 'AutosarVerif.Lemmas.WorldOps'],
+        "closure": ['AutosarVerif.Properties.C11', 'AutosarVerif.Lemmas.WorldOps', 'AutosarVerif.Lemmas.FileOps', 'AutosarVerif.Lemmas.Compat'],
         "scenario": "world",
         "scenario_args": ['--prop', 'C11'],
         "extra_scenarios": [("merge", [])],
@@ -202,7 +202,6 @@ PROPS = {
         "timeout": 3600,
     },
     "C01": {
-        "compare_with_model": False,
         "property_module": "AutosarVerif.Properties.C01",
         "modules": ["AutosarVerif.Properties.C01"],
         "closure": ['AutosarVerif.Properties.C01', 'AutosarVerif.Lemmas.CData', 'AutosarVerif.Lemmas.Lexer', 'AutosarVerif.Lemmas.ParserMonad'],
@@ -214,7 +213,6 @@ PROPS = {
         "timeout": 3600,
     },
     "C08": {
-        "compare_with_model": False,
         "property_module": "AutosarVerif.Properties.C08",
         "modules": ["AutosarVerif.Properties.C08"],
         "closure": ['AutosarVerif.Properties.C08', 'AutosarVerif.Lemmas.ParserMonad'],
@@ -228,7 +226,7 @@ PROPS = {
     "C10": {
         "property_module": "AutosarVerif.Properties.C10",
         "modules": ["AutosarVerif.Properties.C10"],
-        "closure": ['AutosarVerif.Properties.C10', 'AutosarVerif.Lemmas.Files'],
+        "closure": ['AutosarVerif.Properties.C10', 'AutosarVerif.Lemmas.Files', 'AutosarVerif.Lemmas.FileOps'],
         "scenario": 'world',
         "scenario_args": ['--prop', 'C10', '--kind', 'files'],
         "extra_scenarios": [("merge", [])],
